@@ -8,6 +8,7 @@ requests).
 -/
 import JulianVerif.Lemmas.TextRoundTrip
 import JulianVerif.Lemmas.ShapedInst
+import JulianVerif.Lemmas.Grammar
 set_option linter.unusedSimpArgs false
 namespace JV.C13
 open JV Spec
@@ -118,5 +119,52 @@ example : Calendar.gregorian.parseDate "-0001-001".toList
     = .ok ⟨.gregorian, -1, 1, .january, 1, 1, 1720695⟩ := by rfl
 example : Calendar.gregorian.parseDate "2023-04-20x".toList = .error .trailing := by rfl
 example : Calendar.gregorian.parseDate "2023-13-01".toList = .error (.invalidMonth 13) := by rfl
+
+/-- **parsing succeeds only on strings of the form `[sign]digits-digits[-digits]`**, and the
+date returned is the one `at_ordinal_date` / `at_ymd` construct from those numbers (month
+numbers 1–12 only) — for every string of characters whatsoever -/
+theorem parse_accepts_only_grammar (c : Calendar) (s : List Char) (d : Date)
+    (h : c.parseDate s = .ok d) :
+    ∃ (sg : Sign) (Y : List Char), AllDigits Y ∧ InI32 (sg.apply (digitsVal Y 0)) ∧
+      ((∃ O, AllDigits O ∧ s = sg.chars ++ Y ++ '-' :: O
+          ∧ c.atOrdinalDate (sg.apply (digitsVal Y 0)) (digitsVal O 0) = .ok d)
+       ∨ (∃ M D month, AllDigits M ∧ AllDigits D ∧ s = sg.chars ++ Y ++ '-' :: (M ++ '-' :: D)
+          ∧ Month.ofInt? (digitsVal M 0) = some month
+          ∧ c.atYmd (sg.apply (digitsVal Y 0)) month (digitsVal D 0) = .ok d)) :=
+  parseDate_ok_shape c s d h
+
+/-- **every string `[sign]digits-digits` gets the result, or the date error, of constructing
+the date from (year, day of year)**; numbers that do not fit i32 / u32 are `ParseInt` errors -/
+theorem parse_year_ordinal (c : Calendar) (sg : Sign) (Y O : List Char)
+    (hY : AllDigits Y) (hO : AllDigits O) :
+    c.parseDate (sg.chars ++ Y ++ '-' :: O) =
+      if inI32 (sg.apply (digitsVal Y 0)) then
+        if digitsVal O 0 ≤ 4294967295 then
+          match c.atOrdinalDate (sg.apply (digitsVal Y 0)) (digitsVal O 0) with
+          | .ok d => .ok d
+          | .error e => .error (.invalidDate e)
+        else .error .parseInt
+      else .error .parseInt :=
+  parseDate_ordinal_form c sg Y O hY hO
+
+/-- **every string `[sign]digits-digits-digits` gets the result, or the date error, of
+constructing the date from (year, month, day)**; a month number outside 1–12 is
+`InvalidMonth` -/
+theorem parse_year_month_day (c : Calendar) (sg : Sign) (Y M D : List Char)
+    (hY : AllDigits Y) (hM : AllDigits M) (hD : AllDigits D) :
+    c.parseDate (sg.chars ++ Y ++ '-' :: (M ++ '-' :: D)) =
+      if inI32 (sg.apply (digitsVal Y 0)) then
+        if digitsVal M 0 ≤ 4294967295 then
+          match Month.ofInt? (digitsVal M 0) with
+          | none => .error (.invalidMonth (digitsVal M 0))
+          | some month =>
+            if digitsVal D 0 ≤ 4294967295 then
+              match c.atYmd (sg.apply (digitsVal Y 0)) month (digitsVal D 0) with
+              | .ok d => .ok d
+              | .error e => .error (.invalidDate e)
+            else .error .parseInt
+        else .error .parseInt
+      else .error .parseInt :=
+  parseDate_ymd_form c sg Y M D hY hM hD
 
 end JV.C13
